@@ -72,6 +72,41 @@ def main(tier: str) -> int:
             if got <= pop:
                 add({"op": "ideal_cuts", "p": pop, "n": got}, ("ideal_cuts", {"pop_size": pop, "n": got}, cuts))
 
+    # ---- the tree-based family: populations are object arrays of trees of very different sizes; the chunks are still contiguous,
+    #      non-empty, order-preserving and cover every tree once
+    import treelib as TLb
+    from thefittest.base import Tree as _T
+    from thefittest.optimizers import GeneticProgramming, SelfCGP, PDPGP
+    usb = TLb.uniset()
+    sizes_sets = [[3, 9, 5, 7, 11, 3, 7, 5], [1, 1, 1, 25, 1, 1], [31, 1, 1, 1, 1, 1, 1, 1, 1, 1], [1, 1, 1, 1, 1, 1, 1, 29], [5] * 9, [1, 17, 1, 17, 1, 17, 1]]
+
+    def tree_of_size(n):
+        # a chain of unary nodes over a leaf (size n), or a leaf
+        neg = next(x for x in usb._functional_set[1])
+        leaf = usb._terminal_set[0]
+        return _T([neg] * (n - 1) + [leaf])
+    for cls in (GeneticProgramming, SelfCGP, PDPGP):
+        for sizes in sizes_sets:
+            popt = np.array([tree_of_size(n) for n in sizes], dtype=object)
+            for nj in (2, 3, 4, 6, len(sizes)):
+                try:
+                    gp = cls(fitness_function=W.onemax, uniset=usb, iters=1, pop_size=len(sizes), n_jobs=nj)
+                    ch = gp._split_population(popt)
+                except Exception as e:  # noqa
+                    chk.fail("splitting a population of trees raises", {"optimizer": cls.__name__, "tree_sizes": sizes, "n_jobs": nj, "error": repr(e)[:160]},
+                             {"fn": "_split_population", "clause": "trees"})
+                    break
+                lens = [len(c) for c in ch]
+                flat_ids = [id(t) for c in ch for t in c]
+                chk.count("split_trees")
+                chk.case(("split_trees", cls.__name__, tuple(sizes), nj))
+                if flat_ids != [id(t) for t in popt] or any(l == 0 for l in lens) or len(ch) != int(gp._n_jobs):
+                    chk.fail("the population is not split into contiguous, non-empty, order-preserving chunks covering every individual once",
+                             {"optimizer": cls.__name__, "tree_sizes": sizes, "n_jobs": nj, "chunk_lengths": lens}, {"fn": "_split_population", "clause": "trees"})
+                    break
+            else:
+                continue
+            break
     # ---- runs: n_jobs > 1 versus n_jobs = 1, with per-chunk delays that reorder completion
     def run(cls, kw, nj, delays):
         W.DELAYS = delays
